@@ -90,7 +90,9 @@ def run(chk):
     # the premise of the relational certificate, from the source: generate_module_tensora (regenerated) builds ONE
     # definition and ONE graph and maps generate_ir over the requested kinds in order (props/TIE_glue.v)
     from props._tie import run_tie
-    run_tie(chk, ["glue"])
+    # the loop generator itself: _generate_ir.py regenerated as a Gallina function graph -> IR, compared with the real
+    # generate_ir on every swept graph and kind; for ALL graphs the compute kernel it emits satisfies compute_cert (props/TIE_genir.v)
+    run_tie(chk, ["glue", "genir"])
 
 
 def replay(chk, payload):
